@@ -347,8 +347,12 @@ func ephemeral() {
 				}
 			}
 		}
+		// one address per round: the same port may rightly be handed out again for a
+		// different specific address (an early version drew a new address per call and
+		// reported that as a reserved port being returned - harness error)
+		addr := addrs[r.Intn(3)]
 		for len(free) > 0 {
-			p, err := pm.ReservePort(nw, 6, addrs[r.Intn(3)], 0)
+			p, err := pm.ReservePort(nw, 6, addr, 0)
 			rep := map[string]interface{}{"free_ports": fmt.Sprint(free), "returned": p, "err": fmt.Sprint(err)}
 			run.Case(fw.Hash("eph-reserve", i, len(free)), true)
 			if err != nil {
@@ -361,7 +365,7 @@ func ephemeral() {
 			}
 			delete(free, int(p))
 		}
-		if p, err := pm.ReservePort(nw, 6, "", 0); err != tcpip.ErrNoPortAvailable {
+		if p, err := pm.ReservePort(nw, 6, addr, 0); err != tcpip.ErrNoPortAvailable {
 			run.Violation("C10/ephemeral/none", fmt.Sprintf("every port reserved but ReservePort(0) returned %d, %v", p, err), nil)
 		}
 		// other transport unaffected
